@@ -166,6 +166,28 @@ func (m *wireMsg) readBody(br *bufio.Reader, noBody bool, eofDelimited bool) err
 
 // readWireRequest parses one request; io.EOF if the stream ended cleanly before any byte.
 func readWireRequest(br *bufio.Reader) (*wireMsg, error) {
+	m, _, err := readWireRequestEarly(br, nil)
+	return m, err
+}
+
+// readWireRequestEarly is readWireRequest for a peer that may decide, on seeing the head, not to read the body
+// (early(head) == true): the message is returned without its body and the second result is true.
+func readWireRequestEarly(br *bufio.Reader, early func(*wireMsg) bool) (*wireMsg, bool, error) {
+	m, err := readWireRequestHeadRaw(br)
+	if err != nil {
+		return nil, false, err
+	}
+	if m.Method == "CONNECT" {
+		m.Framing = "none"
+		return m, false, nil
+	}
+	if early != nil && early(m) {
+		return m, true, nil
+	}
+	return m, false, m.readBody(br, false, false)
+}
+
+func readWireRequestHeadRaw(br *bufio.Reader) (*wireMsg, error) {
 	var raw bytes.Buffer
 	line, err := readLine(br, &raw)
 	if err != nil {
@@ -180,11 +202,7 @@ func readWireRequest(br *bufio.Reader) (*wireMsg, error) {
 		return nil, err
 	}
 	m.RawHead = raw.Bytes()
-	if m.Method == "CONNECT" {
-		m.Framing = "none"
-		return m, nil
-	}
-	return m, m.readBody(br, false, false)
+	return m, nil
 }
 
 // readWireResponse parses one response to a request with the given method.
